@@ -153,12 +153,19 @@ func c01NewWorld(mode string, onRun func(string)) (*c01World, error) {
 		w.ts = httptest.NewServer(srv.Handler())
 		w.url = w.ts.URL + "/mcp"
 	case "legacy":
-		srv := mcp.NewSSEServer("verif", "1.0", mcp.WithSSEServerLogger(silentLogger{}), mcp.WithKeepAlive(false))
+		// keep-alive comments every millisecond share the stream with the answers; the stream's sink takes every Write in two
+		// pieces (as a slow connection would), so a writer that does not hold the stream's lock lands inside an answer frame
+		srv := mcp.NewSSEServer("verif", "1.0", mcp.WithSSEServerLogger(silentLogger{}), mcp.WithKeepAliveInterval(time.Millisecond))
 		srv.RegisterTool(tool, c01Tool(onRun))
 		srv.RegisterTool(mcp.NewTool("typed", mcp.WithInputStruct[c01TypedIn]()), c01Typed(onRun))
 		srv.RegisterResource(&mcp.Resource{URI: "r://echo", Name: "echo"}, c01Res(onRun))
 		srv.RegisterPrompt(&mcp.Prompt{Name: "echo"}, c01Prompt(onRun))
-		w.ts = httptest.NewServer(srv)
+		w.ts = httptest.NewServer(http.HandlerFunc(func(rw http.ResponseWriter, r *http.Request) {
+			if r.Method == http.MethodGet {
+				rw = &splitRW{ResponseWriter: rw}
+			}
+			srv.ServeHTTP(rw, r)
+		}))
 		w.url = w.ts.URL + "/sse"
 	case "stdio":
 		w.dir, _ = os.MkdirTemp("", "c01")
@@ -167,6 +174,39 @@ func c01NewWorld(mode string, onRun func(string)) (*c01World, error) {
 		return nil, fmt.Errorf("unknown mode %s", mode)
 	}
 	return w, nil
+}
+
+// splitRW passes every Write on in two pieces with a pause between them; each piece is written atomically.
+type splitRW struct {
+	http.ResponseWriter
+	mu sync.Mutex
+}
+
+func (w *splitRW) piece(p []byte) (int, error) {
+	w.mu.Lock()
+	defer w.mu.Unlock()
+	return w.ResponseWriter.Write(p)
+}
+
+func (w *splitRW) Write(p []byte) (int, error) {
+	if len(p) < 8 {
+		return w.piece(p)
+	}
+	h := len(p) / 2
+	if n, err := w.piece(p[:h]); err != nil {
+		return n, err
+	}
+	time.Sleep(150 * time.Microsecond)
+	n, err := w.piece(p[h:])
+	return h + n, err
+}
+
+func (w *splitRW) Flush() {
+	w.mu.Lock()
+	defer w.mu.Unlock()
+	if f, ok := w.ResponseWriter.(http.Flusher); ok {
+		f.Flush()
+	}
 }
 
 func (w *c01World) close() {
@@ -307,11 +347,12 @@ type c01LoadIn struct {
 }
 
 type c01LoadOut struct {
-	ID     string                   `json:"id"`
-	Mode   string                   `json:"mode"`
-	Trace  []map[string]interface{} `json:"trace"`
-	Broken string                   `json:"broken,omitempty"`
-	Pend   int                      `json:"pending_end"`
+	ID         string                   `json:"id"`
+	Mode       string                   `json:"mode"`
+	Trace      []map[string]interface{} `json:"trace"`
+	Broken     string                   `json:"broken,omitempty"`
+	InitFailed string                   `json:"init_failed,omitempty"`
+	Pend       int                      `json:"pending_end"`
 }
 
 func c01Load(in c01LoadIn) (out c01LoadOut) {
@@ -333,6 +374,15 @@ func c01Load(in c01LoadIn) (out c01LoadOut) {
 	for i := range clients {
 		c, err := w.newClient()
 		if err != nil {
+			if strings.HasPrefix(err.Error(), "initialize:") {
+				// the handshake request is a request like any other: no answer while the connection is up
+				out.InitFailed = err.Error()
+				out.Trace = trace
+				for _, pc := range clients[:i] {
+					pc.Close()
+				}
+				return
+			}
 			out.Broken = "client: " + err.Error()
 			return
 		}
